@@ -15,6 +15,7 @@ pub mod sectors;
 pub mod power_ds;
 pub mod sectors_actor;
 pub mod market;
+pub mod reward;
 pub mod c17;
 
 #[derive(Clone, Debug)]
